@@ -53,8 +53,13 @@ class XR(Ext):
     def sym_unop(self, eng, op):
         if op == "USub":
             return XR(-self.k, -self.v)
-        if op == "UAdd":
+        if op in ("UAdd", "float"):
             return self
+        if op == "int":
+            # int(x): truncation toward zero of a finite value (OverflowError for an infinite one)
+            if eng.branch(self.k != 0):
+                raise PyRaise(eng.make_exc("OverflowError", "cannot convert float infinity to integer"))
+            return XR(z3.IntVal(0), z3.ToReal(z3.If(self.v >= 0, z3.ToInt(self.v), -z3.ToInt(-self.v))))
         raise Unsupported("unary %s on a bound" % op)
 
     def sym_binop(self, eng, op, other, reflected):
@@ -197,6 +202,10 @@ class NumpyStub(Ext):
             return stub(lambda eng, x: (x.k != 0) if isinstance(x, XR) else (isinstance(x, float) and math.isinf(x)))
         if name == "isnan":
             return stub(lambda eng, x: isinstance(x, float) and x != x)
+        if name == "isfinite":
+            return stub(lambda eng, x: (x.k == 0) if isinstance(x, XR) else (True if (ops.is_sym(x) or isinstance(x, int)) else (isinstance(x, float) and math.isfinite(x))))
+        if name == "isscalar":
+            return stub(lambda eng, x: isinstance(x, (XR, int, float)) or ops.is_sym(x))
         if name in ("inf", "nan"):
             return float(name)
         raise Unsupported("numpy.%s" % name)
@@ -232,9 +241,10 @@ def bound(eng, label, default):
     return XR(k, v)
 
 
-def make_var(eng, vcls, dvcls, name, explicit_start=None):
+def make_var(eng, vcls, dvcls, name, explicit_start=None, integer=False):
     v = VObj(vcls)
-    v.fields.update({"symbol": MX(name), "python_type": VClass("float"), "aliases": VSet([]),
+    # python_type is the builtin the generator stores (float for Real, int for Integer variables)
+    v.fields.update({"symbol": MX(name), "python_type": eng.builtins["int" if integer else "float"], "aliases": VSet([]),
                      "value": float("nan"), "min": bound(eng, name + ".min", -INF), "max": bound(eng, name + ".max", INF),
                      "nominal": eng.input(name + ".nominal", eng.fresh_real(name + "_nom")),
                      "fixed": eng.input(name + ".fixed", eng.fresh_bool(name + "_fixed"))})
@@ -312,8 +322,12 @@ def h_merge(eng):
     eng.input("alias_signs", signs)
     kind = ["state", "input"][eng.choice(2)]
     eng.input("canonical_is", kind)
-    canon = make_var(eng, vcls, dvcls, "c")
-    al = [make_var(eng, vcls, dvcls, "a%d" % i) for i in range(len(signs))]
+    # one member of the group may be an Integer variable (a Real and an Integer variable can be aliases of each other; the merged
+    # bounds, nominal and start are real numbers all the same)
+    int_member = [None, "c", "a0"][eng.choice(3)]
+    eng.input("integer_variable", int_member)
+    canon = make_var(eng, vcls, dvcls, "c", integer=(int_member == "c"))
+    al = [make_var(eng, vcls, dvcls, "a%d" % i, integer=(int_member == "a%d" % i)) for i in range(len(signs))]
     handled = {}
     for i in range(len(signs)):
         handled["a%d" % i] = bool(eng.choice(2))
